@@ -162,7 +162,7 @@ Proof.
   intros [W1 [W2 [W3 W4]]] Hb Hc. rewrite (is_broken_block _ Hb) in W4. destruct W4 as [W4 [_ [_ W7]]].
   unfold detailed. rewrite skipn_skipn. unfold closes_as_stock in Hc. rewrite Hc. f_equal.
   rewrite slice_skipn. destruct b as [ty c a e l]. cbn [tstart tend tline ttype tcontents] in *.
-  rewrite (is_broken_block _ Hb). cbn [ttype]. f_equal.
+  pose proof (is_broken_block _ Hb) as Ty. cbn [ttype] in Ty. subst ty. f_equal.
   - rewrite W7. f_equal. f_equal; lia.
   - lia.
 Qed.
@@ -208,4 +208,90 @@ Proof.
     by (rewrite !skipn_length; lia).
   apply map_ext. intros t. rewrite shift_shift. f_equal.
   rewrite Hoff. replace (tend b0 + i) with (i + tend b0) by lia. rewrite count_nl_firstn_add. lia.
+Qed.
+
+(* If every quoted block tag of the (restarted) stock stream closes where stock closes it, the loop of
+   parse_template reproduces that stream. *)
+Lemma pt_go_stock d s : forall fuel i off v acc,
+  i <= length s -> off = count_nl (firstn i s) -> state_ok v -> length s - i < fuel ->
+  (forall t, In t (map (shift_tok i off) (django_lex_v d v (skipn i s))) -> is_broken t = true ->
+             closes_as_stock s t) ->
+  pt_go fuel d s i off v acc = POk (acc ++ map (shift_tok i off) (django_lex_v d v (skipn i s))).
+Proof.
+  induction fuel as [|f IH]; intros i off v acc Hi Hoff Hv Hf Hall; [lia|].
+  cbn [pt_go]. destruct (Nat.leb (length s) i) eqn:El.
+  - apply Nat.leb_le in El. rewrite skipn_all2 by lia. cbn. rewrite app_nil_r. reflexivity.
+  - apply Nat.leb_gt in El.
+    destruct (split_broken (map (shift_tok i off) (django_lex_v d v (skipn i s)))) as [good [b|]] eqn:S;
+      destruct (split_broken_spec _ _ _ S) as [_ M]; [|rewrite M; reflexivity].
+    destruct M as [Hb [rest E]].
+    destruct (restart_wf d v s i off Hi Hoff) as [F _]. rewrite E in F.
+    assert (Wb : tok_wf s b) by (apply Forall_app in F as [_ F]; inversion F; assumption).
+    assert (Hcb : closes_as_stock s b) by (apply Hall; [rewrite E; apply in_or_app; right; left; reflexivity|exact Hb]).
+    pose proof (detailed_returns_stock s b Wb Hb Hcb) as D. rewrite D.
+    destruct (round_wf d v s i off good b rest b Hi Hoff E Hb D) as [_ [_ [L [_ [_ [_ [_ Ho]]]]]]].
+    pose proof (restart_rest d s i off v good b rest Hi Hoff Hv E (is_broken_block _ Hb)) as R.
+    rewrite Ho. rewrite IH.
+    + rewrite R, E. rewrite <- !app_assoc. reflexivity.
+    + lia.
+    + reflexivity.
+    + apply next_verbatim_ok.
+    + lia.
+    + rewrite R. intros t It Bt. apply Hall; [|exact Bt]. rewrite E. apply in_or_app. right. right. exact It.
+Qed.
+
+Lemma eq_stock_closed d s :
+  (forall t, In t (django_lex d s) -> is_broken t = true -> closes_as_stock s t) ->
+  parse_template d s = POk (django_lex d s).
+Proof.
+  intros H. unfold parse_template.
+  rewrite (pt_go_stock d s (S (length s)) 0 0 None []); try lia; try reflexivity; try exact I.
+  - cbn [skipn app]. rewrite map_shift_0. reflexivity.
+  - cbn [skipn]. rewrite map_shift_0. exact H.
+Qed.
+
+(* parse_template and stock agree up to the first quoted block tag that the detailed scan closes elsewhere:
+   the first difference, if any, is at such a tag (same start, same line, type BLOCK), or parse_template raises
+   from it.  Together with closes_at_first_unquoted_end this is "differs only by keeping a quoted close". *)
+Lemma first_difference d s :
+  parse_template d s = POk (django_lex d s) \/
+  exists pre b post, django_lex d s = pre ++ b :: post /\ is_broken b = true /\ ~ closes_as_stock s b /\
+    Forall (fun t => is_broken t = true -> closes_as_stock s t) pre.
+Proof.
+  assert (G : forall l, (Forall (fun t => is_broken t = true -> closes_as_stock s t) l) \/
+     exists pre b post, l = pre ++ b :: post /\ is_broken b = true /\ ~ closes_as_stock s b /\
+        Forall (fun t => is_broken t = true -> closes_as_stock s t) pre).
+  { induction l as [|t l IH]; [left; constructor|].
+    destruct (is_broken t) eqn:Bt.
+    - unfold closes_as_stock at 1 3.
+      destruct (dfa_run MNormal (skipn (tstart t + 2) s) 2) as [n|m] eqn:D.
+      + destruct (Nat.eq_dec n (tend t - tstart t)) as [En|En].
+        * destruct IH as [IH|[pre [b [post [E [Bb [Nb Fp]]]]]]].
+          -- left. constructor; [|exact IH]. intros _. unfold closes_as_stock. rewrite D, En. reflexivity.
+          -- right. exists (t :: pre), b, post. rewrite E. repeat split; try assumption.
+             constructor; [|exact Fp]. intros _. unfold closes_as_stock. rewrite D, En. reflexivity.
+        * right. exists [], t, l. repeat split; try assumption; [|constructor].
+          unfold closes_as_stock. rewrite D. intros X. inversion X. contradiction.
+      + right. exists [], t, l. repeat split; try assumption; [|constructor].
+        unfold closes_as_stock. rewrite D. discriminate.
+    - destruct IH as [IH|[pre [b [post [E [Bb [Nb Fp]]]]]]].
+      + left. constructor; [|exact IH]. intros X. rewrite Bt in X. discriminate.
+      + right. exists (t :: pre), b, post. rewrite E. repeat split; try assumption.
+        constructor; [|exact Fp]. intros X. rewrite Bt in X. discriminate. }
+  destruct (G (django_lex d s)) as [A|B]; [|right; exact B].
+  left. apply eq_stock_closed. rewrite Forall_forall in A. exact A.
+Qed.
+
+(* decidable form, for generators and for C10a *)
+Definition closes_as_stockb (s : str) (t : tok) : bool :=
+  match dfa_run MNormal (skipn (tstart t + 2) s) 2 with
+  | Closed n => Nat.eqb n (tend t - tstart t)
+  | EndIn _ => false
+  end.
+
+Lemma closes_as_stockb_iff s t : closes_as_stockb s t = true <-> closes_as_stock s t.
+Proof.
+  unfold closes_as_stockb, closes_as_stock. destruct (dfa_run MNormal (skipn (tstart t + 2) s) 2) as [n|m].
+  - rewrite Nat.eqb_eq. split; [intros; subst; reflexivity|intros X; inversion X; reflexivity].
+  - split; discriminate.
 Qed.
